@@ -421,6 +421,7 @@ func registryScenario(sc *RScenario, raw []byte, run int) {
 					items[id] = *itemOf(id)
 				}
 				// twin: the same calls issued directly, left to right, stopping at the first failure
+				savedFnReg := R.fnReg // which registration a constructor belongs to, as known from earlier calls on c
 				R.fnReg = map[string]string{}
 				for li := range o.Leaves {
 					// the direct calls themselves (not the module builders applied by hand)
@@ -439,7 +440,7 @@ func registryScenario(sc *RScenario, raw []byte, run int) {
 						break
 					}
 				}
-				R.fnReg = map[string]string{}
+				R.fnReg = savedFnReg // the twin used the same constructors: what c knows is what counts
 				ev := M{"ev": "modules", "leaves": o.Leaves, "err": []string{}, "chain": []string{}, "panic": false}
 				func() {
 					defer func() {
